@@ -204,6 +204,30 @@ def dispatch(sx):
     sx.check(len([x for x in log if x[0] == "can"]) > len(asked) or n == 0, "eng.engine-goes-on-after-handler-exception")
 
 
+def cleanup_keeps_order(sx):
+    """removing finished handlers keeps the survivors in registration order (first-match dispatch depends on it)"""
+    from geckolib.driver import GeckoUdpSocket
+    clock = Clock(0)
+    s = GeckoUdpSocket(MockSocket(clock))
+    log = []
+    n = [9, 17][sx.choice("handlers", 2)]      # (enough handlers that an accidental ordering cannot look like the right one)
+    hs = [RH(i, True, False, log) for i in range(n)]
+    order = list(range(n))
+    if sx.choice("registered_in_reverse_creation_order", 2):
+        order.reverse()
+    for i in order:
+        s.add_receive_handler(hs[i])
+    gone = order[sx.choice("finished_handler", 3) % n]
+    hs[gone].should_remove_handler = True
+    s._cleanup_handlers()
+    want = [hs[i] for i in order if i != gone]
+    sx.check(s._receive_handlers == want, "eng.cleanup-keeps-registration-order",
+             lambda: f"{[h.name for h in s._receive_handlers]} vs {[h.name for h in want]}")
+    s.dispatch_recevied_data(b"DATA", DEST)
+    handled = [x[1] for x in log if x[0] == "handle"]
+    sx.check(handled == [want[0].name], "eng.first-registered-survivor-gets-the-datagram", lambda: str(handled))
+
+
 def cleanup_race(sx):
     """another thread registers a handler while _cleanup_handlers is between its locked sections (stepped with a
     lock double that runs the other thread's call at a chosen acquisition): the new handler must survive"""
@@ -421,6 +445,7 @@ def units(tier):
     yield Unit("pacing-run", pacing_run(3 if q else 4), max_paths=100000)
     yield Unit("dispatch", dispatch, max_paths=100000)
     yield Unit("cleanup-race", cleanup_race)
+    yield Unit("cleanup-keeps-order", cleanup_keeps_order, validate=False)
     N = 2 if q else 3
     for n in range(N + 1):
         yield Unit(f"handler-life.retries{n}", handler_life(N), presets={"retries": n}, max_paths=400000, max_depth=3000)
